@@ -291,6 +291,7 @@ pub fn worker(def: &CheckDef, tier: Tier, seed: u64, from: u64, to: u64, stride:
 	let known = load_known();
 	let mut case = from;
 	let mut sampled = 0;
+	let mut new_violations = 0;
 	while case < to {
 		let t0 = real_monotonic_ns();
 		let case_seed = rng::derive(seed, def.id, case);
@@ -338,9 +339,18 @@ pub fn worker(def: &CheckDef, tier: Tier, seed: u64, from: u64, to: u64, stride:
 			line.sample = Some(sample_of(&plan));
 		}
 		line.ms = (real_monotonic_ns() - t0) / 1_000_000;
+		let new_violation = line.violation.as_ref().map(|v| v.class != "harness").unwrap_or(false) && line.known.is_none();
 		writeln!(f, "{}", serde_json::to_string(&line).unwrap()).ok();
 		f.flush().ok();
 		case += stride;
+		if new_violation {
+			// the check fails anyway; do not spend minutes shrinking dozens of violations of a
+			// broken tree (the parent reports the first five). Never reached on a tree that holds.
+			new_violations += 1;
+			if new_violations >= 2 {
+				break;
+			}
+		}
 	}
 	crate::case::cleanup_scratch();
 }
@@ -368,6 +378,15 @@ pub fn run_check(def: &CheckDef, tier: Tier) -> i32 {
 	let outdir = PathBuf::from(format!("/dev/shm/skvsim-out/{}-{}", def.id, unsafe { libc::syscall(libc::SYS_getpid) }));
 	let _ = std::fs::remove_dir_all(&outdir);
 	std::fs::create_dir_all(&outdir).expect("outdir");
+	// replay files of earlier runs of this check are stale
+	if let Ok(rd) = std::fs::read_dir(replay_dir()) {
+		let prefix = format!("{}-", def.id);
+		for e in rd.flatten() {
+			if e.file_name().to_string_lossy().starts_with(&prefix) {
+				let _ = std::fs::remove_file(e.path());
+			}
+		}
+	}
 	let wall_cap_s: u64 = std::env::var("VERIF_WALL_CAP").ok().and_then(|s| s.parse().ok()).unwrap_or(match tier {
 		Tier::Quick => 900,
 		Tier::Thorough => 7200,
@@ -521,6 +540,14 @@ pub fn run_check(def: &CheckDef, tier: Tier) -> i32 {
 			} else if let Some(k) = &l.known {
 				let e = known_hits.entry(k.clone()).or_insert((0, l.replay.clone().unwrap_or_default()));
 				e.0 += 1;
+				// keep one example replay per known finding
+				if e.0 > 1 {
+					if let Some(rp) = &l.replay {
+						if *rp != e.1 {
+							let _ = std::fs::remove_file(rp);
+						}
+					}
+				}
 			} else {
 				violations.push((l.clone(), false));
 			}
